@@ -482,6 +482,14 @@ def ob_sweeps(ctx, res):
         else:
             res.fail("sweep/flush-form", fl, "%s sweep: the flush loop must run while the first open segment starts before the next entry's start; %s" % (what_, bad[1]))
     # segments without bases (from zero-length entries) must not reach the summary's min/max
+    ev_ = bed_sweep_eval(ctx)
+    if ev_ is not None and ev_[0] == "ok":
+        res.ok(pv, "summary flush: decided by running the whole sweep (zero-length entries included): %d entries" % ev_[1])
+        _sweep_tail_clauses(ctx, res, pv, pz, s_stmts, z_stmts)
+        return
+    if ev_ is not None and ev_[0] == "bad":
+        res.fail("sweep/summary-eval", pv, "bigBed summary sweep: " + ev_[1])
+        return
     sw = strip(s_stmts[s_fl]["e"])
     lenlet = [x for x in walk_no_nested_fn(sw["body"]) if x.k == "let" and x["pat"].k == "p_tuple" and up(x["pat"]["elems"][0]) == "len"]
     upd = [x for x in walk_no_nested_fn(sw["body"]) if x.k == "match" and up(strip(x["scrut"])) == "summary"]
@@ -495,6 +503,10 @@ def ob_sweeps(ctx, res):
                  "entries [0,0),[0,1) report maximum 2; empty segments must be skipped before the summary update")
     else:
         res.ok(skip[0], "summary flush: segments without bases are skipped before min/max/sum are updated")
+    _sweep_tail_clauses(ctx, res, pv, pz, s_stmts, z_stmts)
+
+
+def _sweep_tail_clauses(ctx, res, pv, pz, s_stmts, z_stmts):
     # next_start default: u32::MAX when there is no next value
     for what, fn, stmts in (("summary", pv, s_stmts), ("zoom", pz, z_stmts)):
         ns = [st for st in stmts if st.k == "let" and up(st["pat"]) == "next_start"]
@@ -633,3 +645,176 @@ def ob_processor_args(ctx, res):
                 else:
                     res.ok(c, "%s -> %s: value, next, chromosome length/id and the processor's own state passed to the like-named parameters" % (impl, up(c["func"])))
     res.count("sites", sites)
+
+
+# ---------------------------------------------------------------------------------------------------------------------
+# the bigBed summary sweep as a whole: `add_interval_to_summary` run on a mocked depth list for small entry sequences and compared with the
+# definition (per-base coverage depth of the entries seen so far, restricted to the bases before the next entry's start)
+
+_SWEEP_CASES = [
+    [(0, 10), (5, 20), (5, 8), (30, 40), (30, 30), (35, 36)],
+    [(0, 0), (0, 5), (5, 5), (5, 6)],
+    [(10, 20), (10, 20), (12, 15), (19, 25)],
+    [(3, 4)],
+    [(0, 0), (0, 0)],
+    [(2, 9), (4, 6), (6, 9), (9, 12)],
+]
+
+
+class _DepthList:
+    """IndexList<Value> stand-in: ordered segments with stable ids"""
+    def __init__(self):
+        self.items = []      # [id, record]
+        self.n = 0
+
+    def _new(self, rec):
+        self.n += 1
+        rec["__ref"] = True
+        return [self.n, rec]
+
+    def pos(self, ix):
+        if ix is None:
+            return None
+        for i, (k, _) in enumerate(self.items):
+            if ("some", k) == ix:
+                return i
+        return None
+
+
+def bed_sweep_eval(ctx):
+    """None (not evaluable) | ("ok", n_steps) | ("bad", message)"""
+    from ..rules.interp import _Return
+    key = "bed_sweep_eval"
+    if key in ctx.cache:
+        return ctx.cache[key]
+    out = _bed_sweep_eval(ctx)
+    ctx.cache[key] = out
+    return out
+
+
+def _bed_sweep_eval(ctx):
+    from ..rules.interp import _Return
+    pv = ctx.ast.fn(BW, "process_val")
+    cls = [n for n in walk_no_nested_fn(pv.body) if n.k == "let" and n.get("init") is not None and strip(n["init"]).k == "closure" and len(strip(n["init"])["inputs"]) == 5]
+    if len(cls) != 1:
+        return None
+    cl = strip(cls[0]["init"])
+    names = []
+    for p_ in cl["inputs"]:
+        q = p_
+        while q.k == "p_type":
+            q = q["pat"]
+        if q.k != "p_ident":
+            return None
+        names.append(q["name"])
+    steps = 0
+    for case in _SWEEP_CASES:
+        dl = _DepthList()
+        OV = {"__ref": True, "__depthlist": True}
+
+        def method(m, recv, args, dl=dl, OV=OV):
+            if recv is OV:
+                it_ = dl.items
+                if m in ("get_first", "get_first_mut") and not args:
+                    return ("some", it_[0][1]) if it_ else None
+                if m in ("get_last", "get_last_mut") and not args:
+                    return ("some", it_[-1][1]) if it_ else None
+                if m == "first_index" and not args:
+                    return ("some", it_[0][0]) if it_ else None
+                if m == "last_index" and not args:
+                    return ("some", it_[-1][0]) if it_ else None
+                if m in ("get", "get_mut") and len(args) == 1:
+                    i = dl.pos(args[0])
+                    return None if i is None else ("some", it_[i][1])
+                if m == "next_index" and len(args) == 1:
+                    i = dl.pos(args[0])
+                    return ("some", it_[i + 1][0]) if i is not None and i + 1 < len(it_) else None
+                if m == "insert_after" and len(args) == 2:
+                    i = dl.pos(args[0])
+                    if i is None:
+                        raise NotPure("insert_after without a position")
+                    it_.insert(i + 1, dl._new(dict(args[1])))
+                    return ("some", it_[i + 1][0])
+                if m == "insert_before" and len(args) == 2:
+                    i = dl.pos(args[0])
+                    if i is None:
+                        raise NotPure("insert_before without a position")
+                    it_.insert(i, dl._new(dict(args[1])))
+                    return ("some", it_[i][0])
+                if m == "insert_last" and len(args) == 1:
+                    it_.append(dl._new(dict(args[0])))
+                    return ("some", it_[-1][0])
+                if m == "insert_first" and len(args) == 1:
+                    it_.insert(0, dl._new(dict(args[0])))
+                    return ("some", it_[0][0])
+                if m == "remove_first" and not args:
+                    return ("some", it_.pop(0)[1]) if it_ else None
+                if m == "remove_last" and not args:
+                    return ("some", it_.pop()[1]) if it_ else None
+                if m == "is_empty" and not args:
+                    return not it_
+                if m == "len" and not args:
+                    return len(it_)
+                raise NotPure("depth list method " + m)
+            if m == "is_nan" and isinstance(recv, float):
+                return recv != recv
+            raise NotPure("method " + m)
+
+        def binop(op, a, b):
+            if isinstance(a, (int, float)) and isinstance(b, (int, float)) and not isinstance(a, bool) and not isinstance(b, bool):
+                if op == "+":
+                    return a + b
+                if op == "-":
+                    if isinstance(a, int) and isinstance(b, int) and a < b:
+                        raise NotPure("unsigned underflow %d - %d" % (a, b))
+                    return a - b
+                if op == "*":
+                    return a * b
+            raise NotPure("arithmetic")
+
+        def path(p_):
+            return {"u32::MAX": 4294967295, "f64::MAX": 1.7976931348623157e308, "f64::MIN": -1.7976931348623157e308}.get(p_, NotImplemented)
+
+        def call(p_, args):
+            if p_ in ("u32::max_value",) and not args:
+                return 4294967295
+            return NotImplemented
+        summary = None
+        seen = []
+        for i, (s, e) in enumerate(case):
+            nxt = case[i + 1][0] if i + 1 < len(case) else None
+            it = Interp(ctx.ast, BW, extern={"None": None, "method": method, "binop": binop, "path": path, "call": call, "floats": True})
+            env = {names[0]: OV, names[1]: summary, names[2]: s, names[3]: e, names[4]: None if nxt is None else ("some", nxt)}
+            try:
+                b = cl["body"]
+                it.block(b, env, 0) if b.k == "block" else it.ev(b, env, 0)
+            except (NotPure, _Return):
+                return None
+            except Exception:
+                return None
+            summary = env[names[1]]
+            seen.append((s, e))
+            steps += 1
+            # definition: depth per base over the entries so far, bases before the next entry's start
+            hi = max(x[1] for x in seen) if nxt is None else nxt
+            depth = [sum(1 for (a, b_) in seen if a <= p < b_) for p in range(0, hi)]
+            cov = [d for d in depth if d > 0]
+            got = None
+            if summary is not None:
+                if not (isinstance(summary, tuple) and summary[0] == "some" and isinstance(summary[1], dict)):
+                    return None
+                got = summary[1]
+            if not cov:
+                if got is not None and got.get("bases_covered", 0) != 0:
+                    return ("bad", "entries %s: no base is covered before %s, yet the summary reports %s covered bases" % (seen, nxt, got.get("bases_covered")))
+                continue
+            want = {"bases_covered": len(cov), "min_val": float(min(cov)), "max_val": float(max(cov)), "sum": float(sum(cov)), "sum_squares": float(sum(d * d for d in cov))}
+            if got is None:
+                return ("bad", "entries %s: %d bases are covered before %s but no summary was started" % (seen, len(cov), "the end" if nxt is None else nxt))
+            for k_, w_ in want.items():
+                if k_ not in got:
+                    return None
+                if got[k_] != w_:
+                    return ("bad", "after the entries %s (next entry starts at %s) the chromosome summary has %s = %s; the coverage depth of the bases before that point gives %s"
+                            % (seen, "end of chromosome" if nxt is None else nxt, k_, got[k_], w_))
+    return ("ok", steps)
